@@ -21,8 +21,8 @@ def cases(thorough):
                 for (version, conn) in (("1.1", ""), ("1.0", "keep-alive")) if not thorough else (("1.1", ""), ("1.1", "close"), ("1.0", "keep-alive"), ("1.0", "")):
                     for cl in ("none", "exact"):
                         for chunks in chunk_lists:
-                            for kind, use_write in (("list", False), ("gen", False), ("gen", True)):
-                                pts = [("call", 0), ("start_response", 0), ("close", 0)]
+                            for kind, use_write in (("list", False), ("gen", False), ("gen", True), ("noclose", False)):
+                                pts = [("call", 0), ("start_response", 0)] + ([("close", 0)] if kind != "noclose" else [])
                                 pts += [("write" if use_write else "iter", k) for k in range(len(chunks) + 1)]
                                 for fail, k in pts:
                                     out.append(rc.base_case(cl=cl, chunks=chunks, kind=kind, use_write=use_write, fail=fail, fail_k=k, exc=exc,
